@@ -3,6 +3,7 @@ calls removed is run on a fresh DLISFile: the decoded inventories (objects with 
 attributes, data records) must be equal; K-api correspondence with the model, whose rejections are proved traceless."""
 import copy
 import apistream
+import impl
 import judge
 import filemodel
 
@@ -70,7 +71,47 @@ def without_rejected(prog, outs):
     return new
 
 
+def rejected_call_then_other_logical_file(ctx):
+    """A rejected add_* call in logical file 0 under a set name that only logical file 1 uses afterwards: the inventory of every
+    logical file must be what it is without the rejected call (known finding D30: the empty set the call left registered for
+    logical file 0 is the set logical file 1 then fills, so logical file 0 lists logical file 1's objects)."""
+    import numpy as np
+    from dliswriter import DLISFile
+    import filemodel
+    for tk, bad in [('channel', dict(units=5)), ('axis', dict(coordinates='x')), ('zone', dict(domain='NOWHERE'))]:
+        invs = []
+        for with_rejected in (True, False):
+            df = DLISFile()
+            lf0 = df.add_logical_file(fh_id='LF0')
+            lf0.add_origin('O0', file_set_number=1, set_name='A', creation_time='2020/01/01 00:00:00')
+            c0 = lf0.add_channel('C0', data=np.arange(3.0), set_name='A')
+            lf0.add_frame('F0', channels=[c0], set_name='A')
+            if with_rejected:
+                try:
+                    getattr(lf0, 'add_' + tk)('X', set_name='B', **bad)
+                    ctx.notes.append('D30 witness: the call meant to be rejected was accepted (%s)' % tk)
+                except Exception:  # noqa
+                    pass
+            lf1 = df.add_logical_file(fh_id='LF1')
+            lf1.add_origin('O1', file_set_number=1, set_name='B', creation_time='2020/01/01 00:00:00')
+            c1 = lf1.add_channel('C1', data=np.arange(3.0), set_name='B')
+            lf1.add_frame('F1', channels=[c1], set_name='B')
+            getattr(lf1, 'add_' + tk)('Y', set_name='B') if tk != 'channel' else None
+            o = impl.outcome(lambda: impl.write_real(df))
+            if o[0] != 'ok':
+                invs.append(('raised', o[1]))
+                continue
+            d = filemodel.read_file(ctx, o[1]['file'], 8192)
+            invs.append([sorted((r.type, ob.name) for r in lfd if isinstance(r, filemodel.DSet) for ob in r.objects) for lfd in d.logical_files()] if d.ok else 'unreadable')
+        ctx.count('K-reject-other-lf', key=tk)
+        if invs[0] != invs[1]:
+            ctx.violation('rejected-call-changes-the-inventory-of-a-logical-file',
+                          {'type': tk, 'rejected_arguments': {k: repr(v) for k, v in bad.items()}, 'with_rejected_call': invs[0], 'without': invs[1]},
+                          finding_key='D30-rejected-call-set-adopted')
+
+
 def run(ctx):
+    rejected_call_then_other_logical_file(ctx)
     rng = ctx.rng('progs')
     n = 70 if ctx.tier == 'quick' else 800
     import specgen
